@@ -103,7 +103,7 @@ var directedNames = []string{
 	"origin-zero", "destination-check-digit", "destination-zero", "trace-odfi", "trace-order", "trace-zero", "zero-batches", "no-file-header", "no-file-control",
 	"company-id-control", "return-code", "service-class-control", "service-class-header", "batch-order", "batch-number", "check-digit", "batch-addenda-count",
 	"file-addenda-count", "ctx-addenda-records", "addenda-indicator", "prenote-with-amount", "zero-amount-balanced", "amount-plus-balanced", "special-char",
-	"addenda-sequence", "iat-addenda-records",
+	"addenda-sequence", "iat-addenda-records", "block-count-zero", "file-header-field", "batch-header-field",
 }
 
 var specials = []string{"\x7f", "\x1f", "€", "→", "日", "ß", " ", "`", "\x00", "Ø", "¡"}
@@ -373,6 +373,40 @@ func directed(r *gen.Rand, ls []string, name string) ([]string, bool) {
 		} else {
 			out[bc] = addNum(out[bc], 20, 32, d)
 			out[fc] = addNum(out[fc], 31, 43, d)
+		}
+	case "block-count-zero":
+		i, ok := pickIdx(r, recs(out, '9'))
+		if !ok {
+			return nil, false
+		}
+		out[i] = put(out[i], 7, "000000")
+	case "file-header-field":
+		i, ok := pickIdx(r, recs(out, '1'))
+		if !ok {
+			return nil, false
+		}
+		switch r.Intn(4) {
+		case 0:
+			out[i] = put(out[i], 33, gen.Pick(r, []string{"a", " ", "-"})) // file id modifier
+		case 1:
+			out[i] = put(out[i], 23, gen.Pick(r, []string{"999999", "      ", "ABCDEF"})) // creation date
+		case 2:
+			out[i] = put(out[i], 13, "          ") // blank origin
+		default:
+			out[i] = put(out[i], 3, "          ") // blank destination
+		}
+	case "batch-header-field":
+		i, ok := pickIdx(r, recs(out, '5'))
+		if !ok {
+			return nil, false
+		}
+		switch r.Intn(3) {
+		case 0:
+			out[i] = put(out[i], 78, gen.Pick(r, []string{"0", "1", "2", "3"})) // originator status code
+		case 1:
+			out[i] = put(out[i], 69, gen.Pick(r, []string{"999999", "      "})) // effective entry date
+		default:
+			out[i] = put(out[i], 40, "          ") // company identification blank
 		}
 	case "special-char":
 		typ := gen.Pick(r, []byte{'1', '5', '6', '7', '8'})
